@@ -8,12 +8,17 @@ Two layers, both tied to the real code on every run:
      len(name), flash_pattern(name) under if / while / for; model vs the IR of the real parse(), model outputs vs
      the real firmware (g++ + mock core) and CPython; oracle = firmware observations = CPython observations for every
      program inside the guard of C03_env_fresh_partial.
+     Round 3: tuple assignment (Lang/ConstTuple.v: the temporaries form the transpiler emits, proved to be Python's
+     simultaneous assignment), parse-then-emit IR nodes (Lang/ConstNodes.v: every flash_pattern node owns its list, so
+     emission after parsing bakes the list as it was at the call), try / except as branch contexts, len(name) inside
+     right-hand sides as fold sites of the flow guard, sensor-model and Led-pin fold sites, a shrinker for failing programs.
 """
 from __future__ import annotations
 
 import ast
 import collections
 import re
+import zlib
 from fractions import Fraction
 
 from harness import common as C
@@ -22,7 +27,7 @@ from harness import pyast_wire as W
 
 META = {
     "id": "C03",
-    "technique": "Coq proof (soundness of a line-by-line model of _eval_const w.r.t. the reference Python semantics Lang/PySem.v by induction over expressions; closedness of name-free folds; a model of the constant environment with shared list objects across if / while / for, its staleness refuted by computed witnesses, and a simulation theorem - residual program with baked-in constants = source program on every control-flow path - inside a freshness guard, by induction over nested statement blocks; a second simulation for the module-level split between static global initialisers, which run before setup(), and run-time assignments: hoisting is invisible because only closed constant right-hand sides are hoisted, refuted for the variant without the name-free test; a wider flow guard: the transpiler model run in lockstep with a flow-sensitive ghost environment, simulation theorem for every program whose fold sites bake in exactly what the ghost justifies - sibling branches of if / elif / else start from the snapshot, never from an earlier sibling; function definitions: body parsed at the def with the formal arguments unknown, run at a later call, theorem for every argument value, def-time staleness refuted) + extracted-model correspondence with the real _eval_const/_expr_has_name/_to_c_expr/parse() + CPython and compiled-firmware oracles",
+    "technique": "Coq proof (soundness of a line-by-line model of _eval_const w.r.t. the reference Python semantics Lang/PySem.v by induction over expressions; closedness of name-free folds; a model of the constant environment with shared list objects across if / while / for, its staleness refuted by computed witnesses, and a simulation theorem - residual program with baked-in constants = source program on every control-flow path - inside a freshness guard, by induction over nested statement blocks; a second simulation for the module-level split between static global initialisers, which run before setup(), and run-time assignments: hoisting is invisible because only closed constant right-hand sides are hoisted, refuted for the variant without the name-free test; a wider flow guard: the transpiler model run in lockstep with a flow-sensitive ghost environment, simulation theorem for every program whose fold sites bake in exactly what the ghost justifies - sibling branches of if / elif / else start from the snapshot, never from an earlier sibling; function definitions: body parsed at the def with the formal arguments unknown, run at a later call, theorem for every argument value, def-time staleness refuted; tuple assignment as the transpiler emits it - every right-hand side into a temporary, then the targets - proved to be Python's simultaneous assignment for every environment, arity and overlap of targets and right-hand sides via a frame lemma for the reference evaluator, the target-by-target update refuted; parse-then-emit: IR nodes that bake a list hold list objects resolved only when the whole script is parsed - theorem: every flash_pattern node owns its object, so the emitted program is the snapshot residual for every script, the aliasing shortcut refuted) + extracted-model correspondence with the real _eval_const/_expr_has_name/_to_c_expr/parse() + CPython and compiled-firmware oracles",
     "level_text": "Theorems C03_* (coq/Props/C03.v) are proved for all expressions / environments about Gallina models of _eval_const, _expr_has_name, _literal_length, the folding call sites and the flow-insensitive constant environment (len(name), flash_pattern(name), lcd.glyph bitmaps; append / remove bookkeeping; dict copies sharing list objects) (operator and cast tables regenerated from parser.py on every run); soundness holds inside an explicit guard and is refuted outside it by computed witnesses that are replayed on the real transpiler (listed findings); the models are run against the real functions on generated expressions, environments and programs, and the property itself (folded value = CPython value; firmware observations = CPython observations) is evaluated on the real artefacts for every generated case inside the guard.",
     "level_note": "Trusted: Coq kernel, the reference semantics Lang/PySem.v (validated against CPython by harness/pysem_check.py), translator harness/gen/safecasts.py, extraction, OCaml driver, the mock Arduino core + g++ as 'device', CPython 3.12 as 'what Python means'. The theorems are about the models; the correspondence bounds their distance from parser.py. Floats are exact rationals in the model: value comparisons are made only where every intermediate float is a binary64 value (measured per case).",
     "design_ref": "DESIGN.md section 4 C03",
@@ -135,12 +140,15 @@ BOUNDARY_EXPRS = [
     "2 ** -5000", "1 << 4095 >> 4000", "(1 << 4095) // 3", "(1 << 4095) % 1000", "-(1 << 4095) & 255", "(1 << 4095) | 1", "(1 << 4095) ^ -1",
     "(1 << 4095) - (1 << 4095)", "-(1 << 4095) - (1 << 4095)", "x * (1 << 4093)", "x * (1 << 4094)",
     "2 ** 12", "2 ** 2 ** 3", "2 ** 2 ** 12", "[1 << 4095, 1 << 4096]", "max(1 << 4095, 2)", "1 if 1 << 4096 else 2",
+    # sensor model names (Ultrasonic(trig, echo, model=<e>) folds <e> through the constant environment)
+    "'HC-SR04'", "'hc_sr04'", "' hc-sr04 '", "'HC-SR' + '04'", "'HC-SR05'", "t", "t + ''", "'HC-SR0' + str(4)", "f'HC-SR0{4}'",
+    "f'{t}'", "'hc-sr04' if x else 'none'", "s or 'HC-SR04'", "t * 1", "'HC-SR04' if m else t", "str(t)", "'HC-' + 'SR04' * b",
 ]
 ENV_POOL = [
-    {"x": 5, "y": 2.5, "b": True, "s": "ab", "l": [1, 2, 3], "m": MARK},
+    {"x": 5, "y": 2.5, "b": True, "s": "ab", "l": [1, 2, 3], "m": MARK, "t": "hc-sr04"},
     {"x": 0, "y": -0.5, "b": False, "s": "", "l": [], "m": MARK},
-    {"x": -7, "y": 3.0, "b": True, "s": "12", "l": (4, 5), "m": MARK},
-    {"x": 255, "y": 0.25, "b": False, "s": " 7 ", "l": [0], "m": 3},
+    {"x": -7, "y": 3.0, "b": True, "s": "12", "l": (4, 5), "m": MARK, "t": "HC_SR04"},
+    {"x": 255, "y": 0.25, "b": False, "s": " 7 ", "l": [0], "m": 3, "t": "HC-SR05"},
     {},
 ]
 RT_FILL = {"m": 9, "u": 4}
@@ -279,14 +287,16 @@ def layer_a(ctx, stats):
     n_sites = 1500 if thorough else 350
     pick = site_jobs if len(site_jobs) <= n_sites else rng.sample(site_jobs, n_sites)
     pick = pick + [j for j in site_jobs if j[0].count(",") >= 6 and j not in pick]       # every bitmap-shaped expression
+    pick = pick + [j for j in site_jobs if ("HC" in j[0].upper() or re.search(r"\bt\b", j[0])) and j not in pick]   # every sensor-model-shaped one
     pick = [j for j in pick if site_env_ok(j[1]) and "\n" not in j[0] and "#" not in j[0]]
     payload = []
     for src, env, *_ in pick:
         ie = impl_env(env)
-        payload += [["site", "blink", src, ie], ["site", "backlight", src, ie], ["site", "glyph", src, ie], ["site", "sleep", src, ie]]
+        payload += [["site", "blink", src, ie], ["site", "backlight", src, ie], ["site", "glyph", src, ie], ["site", "sleep", src, ie],
+                    ["site", "pin", src, ie], ["site", "model", src, ie]]
     res = C.run_impl("c03_impl.py", {"cases": payload}) if payload else []
     for k, (src, env, msites, mres, exact, py, rt) in enumerate(pick):
-        rb, rl, rg, rs = res[4 * k: 4 * k + 4]
+        rb, rl, rg, rs, rp, rm = res[6 * k: 6 * k + 6]
         case = {"expr": src, "env": {kk: ("<marker>" if v is MARK else v) for kk, v in env.items()}}
         # ---- oracle: the constant baked in at a call site is the value CPython gives the argument expression
         if py is not None and py[0] == "ok":
@@ -294,6 +304,7 @@ def layer_a(ctx, stats):
             special = isinstance(pv, tuple) and bool(pv) and pv[0] == "special"
             for site, ro, want in (("led.blink(<e>, 1)", rb, lambda v: int(v) if type(v) in (int, float, bool) else None),
                                    ("sleep(<e>)", rs, lambda v: int(v) if type(v) in (int, float, bool) else None),
+                                   ("Led(<e>)", rp if "," not in src else ["skip"], lambda v: int(v) if type(v) in (int, float, bool) else None),
                                    ("lcd.backlight(<e>)", rl, lambda v: bool(v) if type(v) in (int, float, bool) else None),
                                    ("lcd.glyph(0, <e>)", rg, lambda v: [int(x) for x in v] if type(v) in (list, tuple) and all(type(x) in (int, float, bool) for x in v) else None)):
                 if ro[0] != "folded" or special:
@@ -311,6 +322,20 @@ def layer_a(ctx, stats):
                 if exp != got or type(exp) is not type(got):
                     ctx.fail(f"the constant folded into {site} is not the run-time value of the argument", {**case, "runtime_env": rt, "site": site},
                              exp, got, key="fold-site")
+            # the sensor model the firmware drives is the one the expression names at run time
+            if rm[0] == "folded" and "," not in src and not special:
+                stats["oracle:site-folds"] += 1
+                stats["oracle:sensor-model-folds"] += 1
+                got = untag(rm[1])
+                if not (isinstance(pv, str) and pv.strip().upper().replace("_", "-") == got):
+                    ctx.fail("the sensor model folded into Ultrasonic(7, 8, model=<e>) is not the model the argument names at run time",
+                             {**case, "runtime_env": rt, "site": "Ultrasonic(7, 8, model=<e>)"}, pv, got, key="fold-site")
+        stats["site:pin:" + rp[0]] += 1
+        stats["site:model:" + rm[0]] += 1
+        # Led(<e>) is int(_eval_const(...)) on name-free arguments, like sleep(...)
+        d = cmp_site(msites[3], rp, lambda w: w, exact) if "," not in src else None
+        if d and not d.startswith("skip"):
+            ctx.disagree(f"call site Led(<pin>): {d}", case, msites[3], rp)
         mnum, mbool, mgly, mslp = msites
         for name, mo, ro, conv in (("blink/_resolve_numeric_arg", mnum, rb, lambda w: w),
                                    ("backlight/_resolve_bool_arg", mbool, rl, lambda w: bool(w)),
@@ -324,7 +349,7 @@ def layer_a(ctx, stats):
         d = cmp_site(mslp, rs, lambda w: w, exact)
         if d and not d.startswith("skip"):
             ctx.disagree(f"call site sleep: {d}", case, mslp, rs)
-    return len(cases) + len(payload), len(distinct), [cases[0][0], cases[len(BOUNDARY_EXPRS)][0], cases[-1][0]]
+    return len(cases) + len(payload), len(distinct), [cases[0][0], cases[min(len(BOUNDARY_EXPRS), len(cases) - 1)][0], cases[-1][0]]
 
 
 def site_env_ok(env):
@@ -364,7 +389,9 @@ def cmp_site(mo, ro, conv, exact):
 # ------------------------------------------------------------------ layer B: programs
 INT_N, STR_N, LIST_N, RT_N = ["va", "vb", "vc", "vd"], ["vs", "vt", "vu"], ["vp", "vq"], ["vm", "vr"]
 LOOPV = ["vi", "vj", "vk"]
-LOCAL_N = ["vx", "vy"]                 # locals of function bodies
+LOCAL_N = ["vx", "vy", "vz"]           # locals of function bodies (vx, vz: str; vy: int)
+HANDLER_MARK = "##handler"
+TMP_PREFIX = "__tmp_assign_"           # the temporaries of a tuple assignment (the real transpiler's own names)
 ALLV = INT_N + STR_N + LIST_N + RT_N + LOOPV + LOCAL_N
 RT_PINS = {17: 5, 18: 1, 19: 0, 20: 2}
 STRS = ["", "x", "xy", "hello", "12", "abc def"]
@@ -374,7 +401,7 @@ class ProgGen:
     """env: transpile-time view {name: ('K', value) | ('M',)}; guarded=True keeps every program inside the guard of
     C03_env_fresh_partial (no write to a known name inside a block that may be skipped or repeated, ...)"""
 
-    def __init__(self, rng, guarded, maxdepth, tuples=False, flow=False, collide=False):
+    def __init__(self, rng, guarded, maxdepth, tuples=True, flow=False, collide=False):
         """flow=True: writes to names with a known transpile-time value are allowed inside blocks (the flow guard of
         Lang/ConstFlow.v); the generator keeps a set of names whose tracked constant may be stale (taint) and never
         folds those - the model's flow_ok decides in the end.  collide=True: for-loop variables may be named like a
@@ -523,17 +550,13 @@ class ProgGen:
                     env[x] = ("M",)
                     return ("aug", x, op, e)
                 continue
-            if q < 0.19 and depth == 0 and self.tuples and self.main_bound is None:
-                # tuple assignment to declared names (the temporaries path): all right-hand sides are evaluated first
-                xs = [x for x in self.bound(env, INT_N) if self.writable(env, x)]
-                if len(xs) >= 2:
-                    a, b = rng.sample(xs, 2)
-                    es = [b, a] if rng.random() < 0.5 else [self.int_expr(env), self.int_expr(env)]
-                    vs = [self.evalk(env, e) for e in es]
-                    if any(v[0] == "K" and not (0 <= v[1] <= 999) for v in vs):
-                        continue
-                    env[a], env[b] = vs
-                    return ("tuple", [a, b], es)
+            if q < 0.23 and self.tuples:
+                # tuple assignment: Python evaluates the whole right-hand side before any target is rebound (the firmware
+                # goes through temporaries); swaps and rotations of names whose tracked constants differ, a right-hand side
+                # that reads an EARLIER target of the same statement, followed by the fold sites that read the targets
+                t = self.tuple_stmt(env, depth)
+                if t:
+                    return t
                 continue
             r = rng.random()
             if r < 0.16:
@@ -611,13 +634,42 @@ class ProgGen:
                 xs = self.known(env, LIST_N)
                 xs = [x for x in xs if all(v is not None for v in env[x][1])]
                 if xs:
-                    return ("flash", rng.choice(xs))
+                    x = rng.choice(xs)
+                    if rng.random() < 0.6 and self.writable(env, x):
+                        # the pattern baked for THIS call is the list as it is now: mutate the list afterwards (append /
+                        # remove of constants), flash again
+                        pend = []
+                        for _ in range(rng.randint(1, 2)):
+                            if env[x][1] and rng.random() < 0.35:
+                                v = rng.choice(env[x][1]); env[x][1].remove(v)
+                                pend.append(("remove", x, str(v)))
+                            else:
+                                c = rng.choice([str(rng.randint(0, 9)), "1", "0", "255"] + self.levels(env))
+                                env[x][1].append(self.evalk(env, c)[1])
+                                pend.append(("append", x, c))
+                        if rng.random() < 0.7:
+                            pend.append(("flash", x))
+                        self.pending = (self.pending or []) + pend
+                    return ("flash", x)
                 if not self.guarded and rng.random() < 0.05 and self.bound(env, LIST_N):
                     return ("flash", rng.choice(self.bound(env, LIST_N)))
             elif depth < self.maxdepth:
-                kind = rng.choice(["if", "if", "while", "for"])
+                kind = rng.choice(["if", "if", "if", "try", "while", "while", "for", "for"])
                 self.forbid.append({x for x, b in env.items() if b[0] == "K"})
                 try:
+                    if kind == "try":
+                        # try: body / except: handler - the transpiler gives the body and every handler a child context
+                        # copied from the snapshot, exactly as for if / else; a body that raises nothing is, for Python,
+                        # `if True: body else: handler` - that is how the model sees it (oracle decision 1, no read)
+                        entry_known = {x for x, b in env.items() if b[0] == "K"}
+                        t0 = set(self.taint)
+                        a = self.block(self.child(env), depth + 1, rng.randint(1, 3))
+                        self.taint = set(t0)
+                        b = self.block(self.child(env), depth + 1, rng.randint(1, 2)) if rng.random() < 0.4 else ([], {})
+                        self.promote(env, a[1]); self.promote(env, b[1])
+                        node = ("if", a[0], b[0], "try")
+                        self.taint = t0 | (self.written(node) & entry_known)
+                        return node
                     if kind == "if":
                         if self.flow and not self.noflow:
                             return self.if_chain(env, depth)
@@ -662,13 +714,79 @@ class ProgGen:
                         if ms:
                             sx = rng.choice(ms)
                             a[0].extend([("assign", sx, f"f\"n{{{lv}}}\""), ("len", sx)])
-                        self.pending = pend
+                        self.pending = (self.pending or []) + [pend]
                         env[lv] = ("K", int(pend[2]))
                         self.taint.discard(lv)
+                    if rng.random() < 0.2:
+                        return ("for", lv, a[0], rng.choice([0, 1, 2, 2, 3]))     # a literal count: for x in range(2)
                     return ("for", lv, a[0])
                 finally:
                     self.forbid.pop()
         return None
+
+    def tuple_stmt(self, env, depth):
+        rng = self.rng
+
+        def ok(x):
+            return x in env and self.writable(env, x) and (env[x][0] == "M" or x not in self.taint)
+        ints, strs = [x for x in INT_N if ok(x)], [x for x in STR_N if ok(x)]
+        kind = rng.choice(["swap", "swap", "rot", "rot", "self", "expr"])
+        xs = es = None
+        if kind in ("swap", "rot"):
+            n = 2 if kind == "swap" else 3
+            pools = [p for p in (ints, strs) if len(p) >= n]
+            if not pools:
+                return None
+            # prefer a pool where the tracked constants differ (that is where a target-by-target update shows)
+            pools.sort(key=lambda p: -len({repr(env[x]) for x in p}))
+            pool = pools[0] if rng.random() < 0.7 else rng.choice(pools)
+            xs = rng.sample(pool, n)
+            es = (xs[1:] + xs[:1]) if rng.random() < 0.5 else (xs[-1:] + xs[:-1])
+        elif kind == "self":
+            ks = [x for x in strs if env[x][0] == "K"]
+            if not ks or not ints:
+                return None
+            sx, iy = rng.choice(ks), rng.choice(ints)
+            se = rng.choice([f"{sx} + {rng.choice(STRS[1:])!r}", repr(rng.choice(STRS) + "pq"), f"{sx} + {sx} + 'z'"])
+            xs, es = [sx, iy], [se, f"len({sx})"]
+            if rng.random() < 0.3 and len(ks) >= 2:
+                # three targets: the last right-hand side reads BOTH earlier targets
+                s2 = rng.choice([x for x in ks if x != sx])
+                xs, es = [sx, s2, iy], [se, f"{s2} + 'w'", f"len({sx}) + len({s2})"]
+        else:
+            if len(ints) < 2:
+                return None
+            xs = rng.sample(ints, 2)
+            es = [self.int_expr(env), rng.choice([xs[0] + " + 1", self.int_expr(env)])]
+        vs = [self.evalk(env, e) for e in es]
+        if any(v[0] == "K" and isinstance(v[1], int) and not (0 <= v[1] <= 999) for v in vs):
+            return None
+        for x, v in zip(xs, vs):
+            env[x] = v
+            self.taint.discard(x)
+        # the consumers: every fold site that reads a target
+        pend = []
+        kstr = [x for x in xs if x in STR_N and env[x][0] == "K"]
+        kint = [x for x in xs if x in INT_N and env[x][0] == "K"]
+        for x in kstr:
+            if rng.random() < 0.8:
+                pend.append(("len", x))
+        if kint and rng.random() < 0.7:
+            rows = list(kint) + [rng.choice([str(rng.randint(0, 31))] + kint) for _ in range(8 - len(kint))]
+            pend.append(("glyph", rows[:8]))
+        lv = [x for x in kint if 0 <= env[x][1] <= 255]
+        ls = [p for p in self.known(env, LIST_N) if self.writable(env, p) and all(v is not None for v in env[p][1])]
+        if lv and ls and rng.random() < 0.5:
+            p = rng.choice(ls)
+            for x in lv:
+                env[p][1].append(env[x][1])
+                pend.append(("append", p, x))
+            pend.append(("flash", p))
+        for x in xs:
+            if rng.random() < 0.3:
+                pend.append(("val", x))
+        self.pending = (self.pending or []) + pend
+        return ("tuple", xs, es)
 
     def child(self, env):
         # a copy of the dict: same bindings, the same list objects
@@ -754,7 +872,7 @@ class ProgGen:
             if s:
                 out.append(s)
                 if self.pending:
-                    out.append(self.pending)
+                    out.extend(self.pending)
                     self.pending = None
                 if s[0] in ("if", "while", "for") and self.rng.random() < 0.7:
                     # look at what the block wrote: that is where a stale environment shows
@@ -804,7 +922,8 @@ class ProgGen:
                 pair = [(d, e, v), (d2, e2, self.evalk(env, e2))]
                 if rng.random() < 0.5:
                     pair.reverse()
-                pre.append(("tuple", [x for x, _, _ in pair], [y for _, y, _ in pair]))
+                # all targets are new at module level: the real transpiler declares them one by one, without temporaries
+                pre.append(("tuple", [x for x, _, _ in pair], [y for _, y, _ in pair], "new"))
                 for x, _, w in pair:
                     env[x] = w
                 pre.append(("val", d2))
@@ -918,14 +1037,22 @@ def gen_def_program(rng, guarded=True):
                 return [("assign", "vx", rng.choice([f"{q} + 'x'", f"{q}", repr(rng.choice(STRS))])), ("len", "vx")]
             if r < 0.92 and ip:
                 return [("assign", "vy", f"{rng.choice(ip)} + {rng.randint(0, 3)}"), ("val", "vy")]
+            if r < 0.97:
+                # locals holding constants that differ, swapped (temporaries inside a function body), then folded
+                a, b = rng.sample(STRS, 2)
+                out = [("assign", "vx", repr(a)), ("assign", "vz", repr(b)), ("tuple", ["vx", "vz"], ["vz", "vx"]), ("len", "vx"), ("len", "vz")]
+                if sp and rng.random() < 0.5:
+                    q = rng.choice(sp)
+                    out += [("tuple", ["vx", "vy"], [f"{q} + 'x'", "len(vx)"]), ("val", "vy"), ("len", "vx")]
+                return out
         return [("val", rng.choice(pn))]
     body = []
     for _ in range(rng.randint(2, 4)):
         if rng.random() < 0.2:
             a = simple()
             b = simple() if rng.random() < 0.5 else []
-            a = [st for st in a if st[0] != "assign"] or [("val", pn[0])]
-            b = [st for st in b if st[0] != "assign"]
+            a = [st for st in a if st[0] not in ("assign", "tuple")] or [("val", pn[0])]
+            b = [st for st in b if st[0] not in ("assign", "tuple")]
             a = [st for st in a if st[1] not in LOCAL_N] or [("val", pn[0])]
             b = [st for st in b if st[1] not in LOCAL_N]
             body.append(("if", a, b))
@@ -979,7 +1106,8 @@ def def_cases(p, call_orcs):
     for st in p[idx + 1:]:
         if st[0] == "call":
             if k < len(call_orcs):
-                out.append([2, wire_prog(prefix), [q for q, _ in params], wire_prog(body), wire_prog(mid),
+                ctr = [0]
+                out.append([2, wire_prog(prefix, ctr), [q for q, _ in params], wire_prog(body, ctr), wire_prog(mid, ctr),
                             [W.enc_val(v) for v in st[3]], call_orcs[k]])
             k += 1
         elif st[0] != "def":
@@ -1004,7 +1132,12 @@ def has_def(p):
     return any(st[0] == "def" for st in p)
 
 
-def wire_prog(p):
+def wire_prog(p, ctr=None):
+    """tuple assignment: the model has it as the transpiler emits it - every right-hand side into a temporary
+    (__tmp_assign_k, k unique per program), then the targets from the temporaries (Lang/ConstTuple.tuple_assign, expanded by
+    the decoder of Wire/C03W.v; theorem C03_tuple_assign_is_simultaneous: that IS Python's simultaneous assignment) - except
+    where all targets are new at module level: there the real transpiler declares the names one by one, in order"""
+    ctr = [0] if ctr is None else ctr
     out = []
     for s in p:
         k = s[0]
@@ -1026,12 +1159,18 @@ def wire_prog(p):
             out.append([3, 3, s[1]])
         elif k == "aug":
             out.append([8, W.enc_src(f"{s[1]} {s[2]} ({s[3]})")])
+        elif k == "tuple":
+            if len(s) > 3 and s[3] == "new":
+                out += [[0, x, W.enc_src(e)] for x, e in zip(s[1], s[2])]
+            else:
+                out.append([9, ctr[0], list(s[1]), [W.enc_src(e) for e in s[2]]])
+                ctr[0] += len(s[1])
         elif k == "if":
-            out.append([5, wire_prog(s[1]), wire_prog(s[2])])
+            out.append([5, wire_prog(s[1], ctr), wire_prog(s[2], ctr)])
         elif k in ("while", "main"):
-            out.append([6, wire_prog(s[1])])
+            out.append([6, wire_prog(s[1], ctr)])
         elif k == "for":
-            out.append([7, s[1], wire_prog(s[2])])
+            out.append([7, s[1], wire_prog(s[2], ctr)])
     return out
 
 
@@ -1060,15 +1199,29 @@ def render_prog(p, sfx, header=True):
             elif k == "len":
                 lines.append(f"{pad}mon.write(len({rn(s[1])}))")
             elif k == "flash":
-                lines.append(f"{pad}led.flash_pattern({rn(s[1])}, 3)")
+                # the spelling is a function of the statement and its position in the block only (the same in every rendering)
+                v = zlib.crc32(repr((s, len(lines) % 7)).encode()) % 10
+                x = rn(s[1])
+                lines.append(f"{pad}led.flash_pattern(pattern={x}, delay_ms=3)" if v == 0 else
+                             f"{pad}led.flash_pattern({x}, delay_ms=3)" if v == 1 else f"{pad}led.flash_pattern({x}, 3)")
             elif k == "glyph":
-                lines.append(f"{pad}lcd.glyph(0, [{', '.join(rn(x) for x in s[1])}])")
+                v = zlib.crc32(repr((s, len(lines) % 7)).encode()) % 10
+                rows = ", ".join(rn(x) for x in s[1])
+                bm = f"({rows})" if v in (2, 3) and len(s[1]) > 1 else f"[{rows}]"     # a tuple literal is a bitmap too
+                lines.append(f"{pad}lcd.glyph(slot=0, bitmap={bm})" if v in (0, 2) else
+                             f"{pad}lcd.glyph(0, bitmap={bm})" if v == 1 else f"{pad}lcd.glyph(0, {bm})")
             elif k == "tuple":
                 lines.append(f"{pad}{', '.join(rn(x) for x in s[1])} = {', '.join(rn(x) for x in s[2])}")
             elif k == "val":
                 lines.append(f"{pad}mon.write({rn(s[1])})")
             elif k == "aug":
                 lines.append(f"{pad}{rn(s[1])} {s[2]}= {rn(s[3])}")
+            elif k == "if" and len(s) > 3 and s[3] == "try":
+                lines.append(f"{pad}try:")
+                block(s[1], lvl + 1)
+                lines.append(f"{pad}except:")
+                lines.append(f"{pad}    mon.write(\"{HANDLER_MARK}\")")       # CPython got into the handler: the run is outside the model
+                block(s[2], lvl + 1)
             elif k == "if":
                 cid[0] += 1
                 c = f"c{cid[0]}_{sfx}"
@@ -1100,6 +1253,9 @@ def render_prog(p, sfx, header=True):
                 lines.append(f"{pad}while {kk} < {n}:")
                 block(s[1], lvl + 1)
                 lines.append(f"{pad}    {kk} = {kk} + 1")
+            elif k == "for" and len(s) > 3:
+                lines.append(f"{pad}for {rn(s[1])} in range({s[3]}):")
+                block(s[2], lvl + 1)
             elif k == "for":
                 cid[0] += 1
                 n = f"n{cid[0]}_{sfx}"
@@ -1137,10 +1293,17 @@ def walk_oracle(p, rng, budget=60):
                 block(defs[s[1]])
                 calls.append(main + orc)
                 orc = main
+            elif s[0] == "if" and len(s) > 3 and s[3] == "try":
+                orc.append(1)
+                block(s[1])
             elif s[0] == "if":
                 d = rng.choice([0, 1])
                 orc.append(d); dr.append(d)
                 block(s[1] if d else s[2])
+            elif s[0] == "for" and len(s) > 3:
+                orc.append(s[3])
+                for _ in range(s[3]):
+                    block(s[2])
             elif s[0] in ("while", "for"):
                 k = rng.choice([0, 1, 1, 2, 3])
                 orc.append(k); ar.append(k)
@@ -1232,6 +1395,96 @@ def impl_static(obs):
     return [["rt"] if o[0] == "rt" else o for o in obs]
 
 
+def flash_then_mutated(p):
+    """does the program flash a list and mutate the same list later (anywhere after, at any depth)?"""
+    flat = []
+
+    def walk(b):
+        for st in b:
+            if st[0] in ("flash", "append", "remove"):
+                flat.append((st[0], st[1]))
+            elif st[0] == "if":
+                walk(st[1]); walk(st[2])
+            elif st[0] in ("while", "main"):
+                walk(st[1])
+            elif st[0] == "for":
+                walk(st[2])
+            elif st[0] == "def":
+                walk(st[3])
+    walk(p)
+    seen = set()
+    for k, x in flat:
+        if k == "flash":
+            seen.add(x)
+        elif x in seen:
+            return True
+    return False
+
+
+def scenario_programs(rng, n):
+    """small programs built around one fold site each, systematically: (a) swap / rotation / self-reading tuple assignment
+    of tracked constants that differ, at module level, in a taken-or-not branch, in a for body, in a function body, then
+    every consumer (len, glyph row, append + flash_pattern); (b) list literal -> flash_pattern(name) -> append / remove of
+    constants (same block or a nested block) -> flash_pattern(name) again"""
+    out = []
+    for i in range(n):
+        kind = i % 6
+        m = rng.choice(RT_N)
+        pre = [("rt", m, rng.choice(sorted(RT_PINS)))]
+        if kind in (0, 1, 2):
+            k = rng.choice([2, 3])
+            if rng.random() < 0.5:
+                xs = rng.sample(STR_N, k)
+                vals = rng.sample(STRS, k)
+                pre += [("assign", x, repr(v)) for x, v in zip(xs, vals)]
+                cons = [("len", x) for x in xs]
+            else:
+                xs = rng.sample(INT_N, k)
+                vals = rng.sample(range(0, 32), k)
+                pre += [("assign", x, str(v)) for x, v in zip(xs, vals)]
+                cons = [("glyph", (xs + ["0"] * 8)[:8]), ("assign", "vp", "[" + ", ".join(rng.choice(["0", "1", "7"]) for _ in range(rng.randint(1, 2))) + "]")]
+                cons += [("append", "vp", x) for x in xs] + [("flash", "vp")]
+            es = (xs[1:] + xs[:1]) if rng.random() < 0.5 else (xs[-1:] + xs[:-1])
+            tup = [("tuple", xs, es)] * rng.choice([1, 1, 2])
+            if kind == 0:
+                body = tup + cons
+            elif kind == 1:
+                # inside a branch: the fold sites of the branch read the swapped values; nothing folds them afterwards
+                body = [("if", tup + cons, [("val", m)] if rng.random() < 0.5 else [])]
+            else:
+                body = tup + [("for", "vi", cons[:1] + [("val", "vi")])] + cons
+            out.append(pre + body)
+        elif kind == 3:
+            # x, y = <new string>, len(x): the second right-hand side reads the OLD x
+            sx, iy = rng.choice(STR_N), rng.choice(INT_N)
+            v0, v1 = rng.sample(STRS, 2)
+            pre += [("assign", sx, repr(v0)), ("assign", iy, "0")]
+            order = rng.random() < 0.5
+            xs, es = ([sx, iy], [repr(v1 + "k"), f"len({sx})"]) if order else ([iy, sx], [f"len({sx})", repr(v1 + "k")])
+            out.append(pre + [("tuple", xs, es), ("val", iy), ("len", sx), ("glyph", [iy] + ["0"] * 7)])
+        else:
+            # flash, mutate, flash
+            p = rng.choice(LIST_N)
+            cur = [rng.choice([0, 1, 1, 255, rng.randint(0, 9)]) for _ in range(rng.randint(1, 5))]
+            body = [("assign", p, repr(cur)), ("flash", p)]
+            muts = []
+            for _ in range(rng.randint(1, 3)):
+                if cur and rng.random() < 0.45:
+                    dup = [v for v in cur if cur.count(v) > 1 and cur.index(v) + 1 != len(cur) - cur[::-1].index(v)]
+                    v = rng.choice(dup if dup and rng.random() < 0.7 else cur)      # remove() takes the FIRST match
+                    cur.remove(v); muts.append(("remove", p, str(v)))
+                else:
+                    v = rng.choice([0, 1, 255, rng.randint(0, 9)]); cur.append(v); muts.append(("append", p, str(v)))
+            if kind == 4:
+                body += muts + [("flash", p), ("len", p)]
+            else:
+                # the mutation sits in a nested block (the list object is shared with the block's copy of the environment);
+                # nothing folds the list afterwards
+                body += [rng.choice([("if", muts, []), ("if", [("val", m)], muts), ("for", "vi", muts[:1])])]
+            out.append(pre + body)
+    return out
+
+
 WITNESSES = {
     "F-C03-shared-list-append": {
         "prog": [("assign", "vp", "[1, 0]"), ("if", [("append", "vp", "1")], []), ("len", "vp"), ("flash", "vp")], "dr": [0], "ar": []},
@@ -1246,9 +1499,31 @@ WITNESSES = {
     "F-C03-def-time-global": {
         "prog": [("assign", "vs", "'ab'"), ("def", "fn", [("va", "int")], [("len", "vs")]), ("assign", "vs", "'abcdef'"),
                  ("call", "fn", ["0"], [0])], "dr": [], "ar": []},
+    "F-C03-stale-after-try": {
+        "prog": [("assign", "vs", "'abc'"), ("if", [("assign", "vs", "'abcdef'")], [], "try"), ("len", "vs")], "dr": [], "ar": []},
     "F-C03-unary-plus-identity": {
         "prog": [("assign", "vs", "f\"{+True}\""), ("len", "vs")], "dr": [], "ar": []},
 }
+
+
+def has_rhs_len(p):
+    for st in p:
+        k = st[0]
+        if k in ("assign", "append", "remove") and "len(" in st[2]:
+            return True
+        if k == "aug" and "len(" in st[3]:
+            return True
+        if k == "tuple" and any("len(" in e for e in st[2]):
+            return True
+        if k == "if" and (has_rhs_len(st[1]) or has_rhs_len(st[2])):
+            return True
+        if k in ("while", "main") and has_rhs_len(st[1]):
+            return True
+        if k == "for" and has_rhs_len(st[2]):
+            return True
+        if k == "def" and has_rhs_len(st[3]):
+            return True
+    return False
 
 
 def has_tuple(p):
@@ -1288,6 +1563,8 @@ def run_real(progs, drs, ars, batch, loops=None):
             o["status"] = "rejected:" + o["static"]["status"]
         elif o["py"]["exc"]:
             o["status"] = "py-undefined:" + o["py"]["exc"]
+        elif ["S", HANDLER_MARK] in o["py"]["obs"]:
+            o["status"] = "py-undefined:exception-inside-try"
         else:
             runnable.append(i)
     # a sketch has one main loop: a program with `while True:` closes its group
@@ -1356,11 +1633,13 @@ def layer_b(ctx, stats):
         g = (i % 6) != 5
         progs.append(gen_def_program(rng, g))
         guarded.append(g)
-    # tuple assignment (not in the Coq model: no correspondence, only the oracle, on programs the generator keeps
-    # inside the guard by construction)
+    # straight-line programs dense in tuple assignments and flash / mutate / flash sequences (every program above may
+    # contain them too, at any depth)
     for i in range(n // 5):
-        progs.append(ProgGen(rng, True, 2, tuples=True).program(main=(i % 4 == 1)))
+        progs.append(ProgGen(rng, True, 1 if i % 2 else 2, flow=(i % 3 == 0)).program(main=(i % 4 == 1)))
         guarded.append(True)
+    progs += scenario_programs(rng, n // 7)
+    guarded += [True] * (len(progs) - len(guarded))
     def count(b, depth):
         for st in b:
             stats[f"stmt:{st[0]}@depth{depth}"] += 1
@@ -1377,7 +1656,7 @@ def layer_b(ctx, stats):
     progs, guarded, walks = [progs[i] for i in keep], [guarded[i] for i in keep], [walks[i] for i in keep]
     orcs, drs, ars, loops = [w[0] for w in walks], [w[1] for w in walks], [w[2] for w in walks], [w[4] for w in walks]
     real, scripts, n_sk = run_real(progs, drs, ars, batch=10 if thorough else 8, loops=loops)
-    modelled = [i for i, p in enumerate(progs) if not has_tuple(p)]
+    modelled = list(range(len(progs)))
     model = [None] * len(progs)
     dmodel = {}
     if ctx.exe:
@@ -1388,12 +1667,15 @@ def layer_b(ctx, stats):
             dmodel.setdefault(i, []).append(m)
     distinct = set()
     samples = []
+    failing = []
     for idx, (p, g, o, r, m, s) in enumerate(zip(progs, guarded, orcs, real, model, scripts)):
         body = s[len(HEADER):]
         case = {"script": s, "dr4": None, "oracle": o}
         stats["prog:" + r["status"].split(":")[0]] += 1
         if has_tuple(p):
-            stats["prog:tuple-assignment (oracle only)"] += 1
+            stats["prog:with tuple assignment"] += 1
+        if flash_then_mutated(p):
+            stats["prog:flash_pattern(name) followed by a mutation of that list"] += 1
         fresh = g
         if m is not None:
             if m == [2]:
@@ -1442,8 +1724,10 @@ def layer_b(ctx, stats):
                     else:
                         stats["tie:def-static-equal"] += 1
                 # module level: which first assignments became static initialisers, which stayed in setup()
-                mg = [[C.wstr(x[0]), x[1]] for x in mglobals]
-                mt = [C.wstr(x) for x in mtops]
+                # the temporaries of a tuple assignment are locals of setup() in the real sketch; the model lists them like
+                # any other first assignment
+                mg = [[C.wstr(x[0]), x[1]] for x in mglobals if not C.wstr(x[0]).startswith(TMP_PREFIX)]
+                mt = [C.wstr(x) for x in mtops if not C.wstr(x).startswith(TMP_PREFIX)]
                 ig = [x[0][:-2] for x in r["static"].get("globals", []) if prog_name(x[0]) and x[0][:-2] in {n for n, _ in mg}]
                 it = [x[:-2] for x in r["static"].get("tops", []) if prog_name(x[5:] if x.startswith("decl:") else x)]
                 for nm, kind in mg:
@@ -1471,6 +1755,10 @@ def layer_b(ctx, stats):
                             stats["tie:py-equal"] += 1
                     if mf is not None and has_collision(p):
                         stats["tie:fw-skipped (loop variable named like a module variable)"] += 1
+                    elif mf is not None and not (mfresh or mflow) and has_rhs_len(p):
+                        # the model keeps right-hand sides symbolic; the real translation folds len(name) inside them: the
+                        # two coincide only where the environment is right (inside the guards, where lens_agree holds)
+                        stats["tie:fw-skipped (outside both guards, len(name) inside a right-hand side)"] += 1
                     elif mf is not None:
                         if mf != r["fw"]:
                             ctx.disagree("firmware outputs of the model differ from the real firmware", body, mf, r["fw"])
@@ -1483,14 +1771,122 @@ def layer_b(ctx, stats):
             if nobs >= 2:
                 distinct.add(body)
             if r["fw"] != r["py"]["obs"]:
-                ctx.fail("firmware observations (serial lines: folded lengths and run-time values of variables; flash pattern levels; glyph rows) differ from CPython's on a program inside the guard",
-                         {"script": s, "digital_read(4)": drs[idx], "analog_read(14)": ars[idx], "main_loop_passes": loops[idx]},
-                         r["py"]["obs"], r["fw"], key="stale-fold")
+                failing.append((idx, r["py"]["obs"], r["fw"]))
         elif fresh and r["status"] == "nocompile":
             stats["oracle:nocompile"] += 1
         if len(samples) < 3 and r["status"] == "ran" and fresh and len(body) < 500:
             samples.append(body)
+    # the smallest failing program first, shrunk (statements that are not needed for the failure are deleted)
+    failing.sort(key=lambda f: len(scripts[f[0]]))
+    what = ("firmware observations (serial lines: folded lengths and run-time values of variables; flash pattern levels; glyph rows) "
+            "differ from CPython's on a program inside the guard")
+    for n_f, (idx, pyo, fwo) in enumerate(failing):
+        p, sc = progs[idx], scripts[idx]
+        if n_f == 0:
+            small = shrink_program(ctx, p, orcs[idx], drs[idx], ars[idx], loops[idx])
+            if small is not None:
+                p, sc, pyo, fwo = small
+                stats["oracle:failing program shrunk"] += 1
+        ctx.fail(what, {"script": sc, "digital_read(4)": drs[idx], "analog_read(14)": ars[idx], "main_loop_passes": loops[idx]},
+                 pyo, fwo, key="stale-fold")
     return len(progs), len(distinct), samples, n_sk
+
+
+SIMPLE_KINDS = ("assign", "rt", "append", "remove", "len", "flash", "glyph", "val", "aug", "tuple")
+
+
+def stmt_paths(p):
+    """index paths of the simple statements of a program (at any depth) that can be deleted without emptying a block"""
+    out = []
+
+    def rec(b, pre):
+        for i, st in enumerate(b):
+            if st[0] in SIMPLE_KINDS and len(b) > 1:
+                out.append(pre + (i,))
+            elif st[0] == "if":
+                rec(st[1], pre + (i, 1)); rec(st[2], pre + (i, 2))
+            elif st[0] in ("while", "main"):
+                rec(st[1], pre + (i, 1))
+            elif st[0] == "for":
+                rec(st[2], pre + (i, 2))
+    rec(p, ())
+    return out
+
+
+def delete_paths(p, paths):
+    """the program without the statements at the given paths (the control structure, hence the run-time decisions of the
+    recorded path, stays as it is); None if a block that must not be empty would become empty"""
+    drop = set(paths)
+
+    def rec(b, pre):
+        out = []
+        for i, st in enumerate(b):
+            pa = pre + (i,)
+            if pa in drop:
+                continue
+            if st[0] == "if":
+                st = (st[0], rec(st[1], pa + (1,)), rec(st[2], pa + (2,))) + tuple(st[3:])
+            elif st[0] in ("while", "main"):
+                st = (st[0], rec(st[1], pa + (1,)))
+            elif st[0] == "for":
+                st = (st[0], st[1], rec(st[2], pa + (2,))) + tuple(st[3:])
+            out.append(st)
+        return out
+
+    def ok(b):
+        for st in b:
+            if st[0] == "if" and (not st[1] or not ok(st[1]) or not ok(st[2])):
+                return False
+            if st[0] in ("while", "main") and (not st[1] or not ok(st[1])):
+                return False
+            if st[0] == "for" and (not st[2] or not ok(st[2])):
+                return False
+        return True
+    q = rec(p, ())
+    return q if q and ok(q) else None
+
+
+def deletions(p):
+    paths = stmt_paths(p)
+    out = [(pa, delete_paths(p, [pa])) for pa in paths]
+    return [(pa, c) for pa, c in out if c is not None]
+
+
+def still_fails(ctx, cands, orc, dr, ar, loops):
+    """-> per candidate None | (script, CPython observations, firmware observations): inside the guard (decided by the
+    extracted model), defined under CPython, firmware observations differ"""
+    if not cands:
+        return []
+    real, scripts, _ = run_real(cands, [dr] * len(cands), [ar] * len(cands), batch=1, loops=[loops] * len(cands))
+    model = ctx.model([[1, wire_prog(c), orc] for c in cands]) if ctx.exe else [None] * len(cands)
+    out = []
+    for c, r, m, sc in zip(cands, real, model, scripts):
+        ok = r["status"] == "ran" and r["fw"] != r["py"]["obs"]
+        if ok and m is not None:
+            ok = m != [2] and bool((m[1] and m[5][0]) or (m[6][0] and m[6][1]))
+        out.append((sc, r["py"]["obs"], r["fw"]) if ok else None)
+    return out
+
+
+def shrink_program(ctx, p, orc, dr, ar, loops, rounds=10):
+    if has_def(p):
+        return None
+    best = None
+    for _ in range(rounds):
+        cands = deletions(p)[:64]
+        res = still_fails(ctx, [c for _, c in cands], orc, dr, ar, loops)
+        keep = [(pa, c, r) for (pa, c), r in zip(cands, res) if r is not None]
+        if not keep:
+            break
+        # all deletions that keep the failure, at once; else the one that leaves the shortest script
+        both = delete_paths(p, [pa for pa, _, _ in keep]) if len(keep) > 1 else None
+        if both is not None:
+            r = still_fails(ctx, [both], orc, dr, ar, loops)[0]
+            if r is not None:
+                p, best = both, r
+                continue
+        _, p, best = min(keep, key=lambda k: len(k[2][0]))
+    return None if best is None else (p,) + best
 
 
 def replay_findings(ctx):
@@ -1515,15 +1911,19 @@ def run(ctx: C.Ctx):
         "distinct_nontrivial": d_a + d_b,
         "programs": n_b,
         "sketches_compiled": n_sk,
-        "rule": "A: boundary expressions (every node kind _eval_const looks at, each operator with int/float/bool/str operands, error sources, hostile forms) x 3-5 environments (known int/float/bool/str/list/tuple, a marker, an unbound name), then seeded random expressions (harness/pyast_wire.gen_expr, depth 1-4) - each through the extracted model and the real _eval_const/_expr_has_name/_to_c_expr, a sample also through parse() at the blink/backlight/glyph/sleep call sites with the environment set up by assignments; non-trivial (A) = distinct (expression, environment) on which the real evaluator returned a value inside the guard and the CPython comparison ran. B: seeded programs (assign / augmented assign / run-time read / append / remove / len(name) / flash_pattern(name) / lcd.glyph(0, [rows]) / mon.write(name) = the run-time value of a variable; at module level a 'retune' pattern: a constant is re-assigned and then used in the FIRST assignment of another module-level name, which is then printed - the static-initialiser vs run-time-assignment split; a fifth of the programs additionally use tuple assignment, oracle only) under if, while, for and - every fourth program - the sketch's main loop `while True:` run 1-3 passes; 80 % generated inside the guard; every second guarded program is generated for the FLOW guard: tracked constants are re-assigned / appended inside branches and loop bodies, if / elif / else chains of 1-3 branches where 60 % of the branches with later siblings re-assign a tracked constant and the later siblings fold it (len / glyph row) from the snapshot, loop bodies that write tracked constants nothing folds, for-loop variables named like a tracked module constant followed by a re-assignment with a probe (a string formatted from the binder, and its length) in the body; a further quarter of the programs define a function whose formal arguments are mostly named like tracked module constants of the same type, with len(argument) / glyph / flash_pattern / len(module constant) / locals in the body, module statements between the def and 1-2 calls (some re-assigning a constant the body folds), arguments that differ from the same-named constants) with one seeded execution path each (branches taken or not, loops 0-3 times): real parse() IR vs model residual (folded constants; which module-level first assignments became static initialisers and which stayed in setup()), CPython run vs model reference semantics, firmware run (batched sketches, g++, mock core) vs model firmware outputs; non-trivial (B) = distinct program inside the guard that ran on both sides with >= 2 observations.",
+        "rule": "(round 3 additions - A: sensor-model-shaped expressions ('HC-SR04' spellings, concatenations, names bound to model strings) through Ultrasonic(7, 8, model=<e>) and every sampled expression through Led(<e>): the folded model / pin is what the argument names at run time. B: tuple assignments at every depth and in every program family (swaps and 3-rotations of int / str names whose tracked constants differ, `x, y = <new string>, len(x)` and three-target forms whose last right-hand side reads both earlier targets, pairs of expressions where the second reads the first target; all-new pairs at module level), each followed by the fold sites that read the targets (len(target), a glyph bitmap built from the targets, append(target) + flash_pattern); flash_pattern(name) followed by append / remove of constants to the same list - in the same block, in a taken-or-not branch, in a for body - and a second flash_pattern; try / except blocks (sent to the model as `if <true>: body else: handler`; the head of every handler prints a marker so that a CPython run that enters a handler is discarded); removes that prefer a duplicated value; a family of small scenario programs built around one such fold site each; a failing program is shrunk by deleting simple statements (re-checked against the guard of the extracted model) before it is reported.) A: boundary expressions (every node kind _eval_const looks at, each operator with int/float/bool/str operands, error sources, hostile forms) x 3-5 environments (known int/float/bool/str/list/tuple, a marker, an unbound name), then seeded random expressions (harness/pyast_wire.gen_expr, depth 1-4) - each through the extracted model and the real _eval_const/_expr_has_name/_to_c_expr, a sample also through parse() at the blink/backlight/glyph/sleep call sites with the environment set up by assignments; non-trivial (A) = distinct (expression, environment) on which the real evaluator returned a value inside the guard and the CPython comparison ran. B: seeded programs (assign / augmented assign / run-time read / append / remove / len(name) / flash_pattern(name) / lcd.glyph(0, [rows]) / mon.write(name) = the run-time value of a variable; at module level a 'retune' pattern: a constant is re-assigned and then used in the FIRST assignment of another module-level name, which is then printed - the static-initialiser vs run-time-assignment split; a fifth of the programs additionally use tuple assignment, oracle only) under if, while, for and - every fourth program - the sketch's main loop `while True:` run 1-3 passes; 80 % generated inside the guard; every second guarded program is generated for the FLOW guard: tracked constants are re-assigned / appended inside branches and loop bodies, if / elif / else chains of 1-3 branches where 60 % of the branches with later siblings re-assign a tracked constant and the later siblings fold it (len / glyph row) from the snapshot, loop bodies that write tracked constants nothing folds, for-loop variables named like a tracked module constant followed by a re-assignment with a probe (a string formatted from the binder, and its length) in the body; a further quarter of the programs define a function whose formal arguments are mostly named like tracked module constants of the same type, with len(argument) / glyph / flash_pattern / len(module constant) / locals in the body, module statements between the def and 1-2 calls (some re-assigning a constant the body folds), arguments that differ from the same-named constants) with one seeded execution path each (branches taken or not, loops 0-3 times): real parse() IR vs model residual (folded constants; which module-level first assignments became static initialisers and which stayed in setup()), CPython run vs model reference semantics, firmware run (batched sketches, g++, mock core) vs model firmware outputs; non-trivial (B) = distinct program inside the guard that ran on both sides with >= 2 observations.",
         "samples": [{"expr": x} for x in s_a] + [{"program": x} for x in s_b],
         "distribution": dict(sorted(stats.items())),
         "guard": "B (wider, this round): flow_ok (ConstFlow.cblock's flag) - at every fold site the transpiler baked in exactly what the flow-sensitive ghost environment justifies (branches start from the bindings before the if with a private store; names written in a branch / loop body are unknown afterwards and inside the loop) - and def_ok for every call of a defined function (body justified by the def-time bindings no module statement before the call writes, formal arguments unknown); a program goes to the oracle when the extracted model says is_fresh or flow_ok, the hoisting side conditions hold and every call is inside def_ok. A: in_guard (no one-argument max/min; unary plus only on int/float operands - decided by CPython in the oracle), no variable named like a builtin of _SAFE_NAME_REFERENCES. B: is_fresh (ConstEnv.tblock's ghost flag): no assignment / append / remove to a name with a known transpile-time value inside an if / while / for body, remove only of a known value that is present, append only of a known value - outside: findings F-C03-*; split_ok = is_fresh and the hoisting side conditions of C03_global_split_partial (always true for generated programs: no for-loop variable is assigned elsewhere)",
         "unmodelled": ["IEEE specials, float results that are not exactly representable are compared only CPython-vs-implementation (exact), not against the rational model",
-                       "sensor model names (ast.literal_eval fallback), pin folding in device constructors (same _resolve pattern; only blink/backlight/glyph/sleep sites are run)",
+                       "sensor model names and Led pins are oracle-only fold sites (real parse() vs CPython value; no Gallina function for the model-name canonicalisation); other device constructors' pins follow the same _resolve pattern and are not run",
                        "list aliasing between variables (b = a), flash_pattern / glyph with an inline literal containing names (ast.literal_eval path) in the environment model",
-                       "tuple assignment is not in the Coq model: programs using it (module level, all-new or all-declared int / str names) only go through the firmware-vs-CPython oracle",
-                       "try / except bodies (child contexts like if branches), functions that call functions / recursion / return values feeding fold sites / list arguments (the def model is: call-free body, str / int arguments, module-level def and calls), names promoted out of blocks are not listed among the model's globals",
+                       "len(name) INSIDE a right-hand side / append / remove argument is folded by the real translation (_to_c_expr); the model keeps those expressions symbolic and instead makes each such sub-term a fold site of the flow guard (ConstFlow.lens_agree; inside is_fresh the environment is right by the simulation invariant) - the model-vs-real firmware tie is skipped for programs outside both guards that contain one",
+                       "tuple assignment: the model has the temporaries form (Lang/ConstTuple.v, proved simultaneous); where all targets are new at module level the real transpiler declares the names one by one without temporaries and the harness sends single assignments (tie: globals / top-level assignments / folded constants); tuple assignment of list VALUES (aliasing) and targets that are partly new at module level (setup()-local declarations: C01/C06) are not generated",
+                       "try / except: modelled as a two-way branch whose body is taken (a body that raises nothing); handlers that actually run (exceptions at run time), finally / else clauses, typed handlers are outside",
+                       "IR nodes other than LedFlashPattern that hold lists (LCDGlyph.bitmap is built entry by entry from a freshly evaluated list and cannot alias the environment: names bound to lists do not evaluate) - covered by reading the real IR after parse() in the correspondence, not by Lang/ConstNodes.v",
+                       "statements the parser drops without translating (p[0] = 7, p.pop(), p.insert(), p.reverse(), p.clear(), p.extend(): C07's silent-skip findings) leave the tracked list and the firmware's list equally unchanged - never generated here",
+                       "functions that call functions / recursion / return values feeding fold sites / list arguments (the def model is: call-free body, str / int arguments, module-level def and calls), names promoted out of blocks are not listed among the model's globals",
                        "the module-level hoisting theorem (C03_global_split_partial) is proved under is_fresh; for programs that are only inside the flow guard the hoisting half is covered by the correspondence (globals / top-level assignments) and the firmware oracle, not by a theorem",
                        "a for-loop variable named like a module variable that is assigned inside the loop body or read after the loop without re-assignment (C++ scopes the loop variable: C01's business) - generated only with a re-assignment after the loop; the model-vs-firmware tie is skipped for those programs",
                        "str(float) / float(str) / complex results: OutOfModel in PySem (skipped, counted)"],
